@@ -657,11 +657,11 @@ class SymBool:
 def _div_site():
     import sys
     f = sys._getframe(2)
-    while f and ('pyvc' in f.f_code.co_filename):
+    while f and ('/pyvc/' in f.f_code.co_filename or '/contracts/' in f.f_code.co_filename):
         f = f.f_back
     if not f:
         return '?'
-    return '%s:%d' % (f.f_code.co_name, f.f_lineno)
+    return f.f_code.co_name          # (no line number: obligation ids must survive unrelated edits)
 
 
 class SymNum:
